@@ -203,7 +203,33 @@ def shape(txt, keep=()):
     return _IDENT.sub(rep, txt)
 
 
+def _flipped(txt):
+    """`a < b` as `b > a` (same comparison, other way round); None if txt is not one plain comparison."""
+    tail = ''
+    body = txt
+    if '@' in txt and ':' in txt.rsplit('@', 1)[-1]:
+        body, tail = txt.rsplit('@', 1)
+        tail = '@' + tail
+    try:
+        e = ast.parse(body, mode='eval').body
+    except SyntaxError:
+        return None
+    sw = {ast.Lt: ast.Gt, ast.Gt: ast.Lt, ast.LtE: ast.GtE, ast.GtE: ast.LtE, ast.Eq: ast.Eq, ast.NotEq: ast.NotEq}
+    if isinstance(e, ast.Compare) and len(e.ops) == 1 and type(e.ops[0]) in sw:
+        return ast.unparse(ast.Compare(left=e.comparators[0], ops=[sw[type(e.ops[0])]()], comparators=[e.left])) + tail
+    return None
+
+
 def match(table, fk, txt, keep=(), src=None, params=()):
+    k = _match1(table, fk, txt, keep, src, params)
+    if k is None:
+        alt = _flipped(txt)
+        if alt is not None:
+            k = _match1(table, fk, alt, keep, src, params)
+    return k
+
+
+def _match1(table, fk, txt, keep=(), src=None, params=()):
     k = _match(table, fk, txt, keep, src)
     if k is None and params:
         # a renamed parameter of a private helper: second try with the parameters abstracted too
